@@ -200,22 +200,27 @@ def values(style, first, nd, kwmask, documented, active, d0, d1, d2, d3):
     return judge(ir, fd, list(documented), style, active) == ""
 
 
-def cls_merge(style, npos, nd, docmask, active):
+def cls_merge(style, npos, nd, docmask, active, has_kw=0, doc_kw=0):
     """class merged with its __init__: documented information first, signature fills the gaps, nothing dropped or duplicated"""
-    style, npos, nd, docmask = realize((style, npos, nd, docmask))
+    style, npos, nd, docmask, has_kw, doc_kw = realize((style, npos, nd, docmask, has_kw, doc_kw))
     with untraced():
         names = list(POS[:npos])
-        documented = [n for i, n in enumerate(names) if (docmask >> i) & 1]
-        init = mk_fn(npos, nd, 0, 0, False, 1, 0, [], (11, 12, 13, 21, 22), name="__init__")
+        documented = [n for i, n in enumerate(names) if (docmask >> i) & 1] + (["kw"] if (has_kw and doc_kw) else [])
+        init = mk_fn(npos, nd, 0, 0, bool(has_kw), 1, 0, [], (11, 12, 13, 21, 22), name="__init__")
         init.body = [ast.Pass()]
         cd = ast.ClassDef(name="K", bases=[], keywords=[], decorator_list=[], type_params=[], lineno=1, col_offset=0,
                           body=[ast.Expr(value=ast.Constant(value=mk_doc(style, documented).replace(":param", ":cvar"), kind=None)), init])
         ir = parse.class_(cd, merge_inner_function="__init__")
         m = model(init)
         got = list(ir["params"].keys())
+        if has_kw and not doc_kw and "KF-C07-kwarg-dropped" in active:
+            m = [x for x in m if x[0] != "kw"]
         if sorted(got) != sorted(x[0] for x in m):
             return False
-        if got != [x[0] for x in m] and not ("KF-C07-doc-order" in active and got == _doc_first_order([x[0] for x in m], documented)):
+        names_m = [x[0] for x in m]
+        # class merge: the class docstring's entries come first (kw included where documented), then the rest in signature order
+        known = [n for n in documented if n in names_m] + [n for n in names_m if n not in documented]
+        if got != names_m and not ("KF-C07-doc-order" in active and got == known):
             return False
         for n, dflt, ann, kind in m:
             e = ir["params"][n]
@@ -300,6 +305,11 @@ def obligations(tier, seed):
                    replay=lambda cex: (seed_sweep(12)["status"] == "violated", "re-ran the sweep"),
                    bounds="'independent of any run-to-run variation': the whole quick configuration table x 3 styles converted in sub-processes "
                    "under PYTHONHASHSEED 0..%d and random; one digest" % (7 if tier == "quick" else 31)))
+    obs.append(Ob(name="class_init_merge_kwargs", params=[("style", "int"), ("npos", "int"), ("docmask", "int"), ("dk", "int")],
+                  pre=["1 <= style <= 2", "1 <= npos <= 3", "0 <= docmask < 2 ** npos", "0 <= dk <= 1"],
+                  body="H.cls_merge(style, npos, 0, docmask, {ACTIVE}, has_kw=1, doc_kw=dk)", witness=(1, 2, 1, 1), kind="F",
+                  bounds="class K merged with __init__(self, a, b, c, **kw): the class docstring (numpydoc / google, which carry a type for kw) "
+                  "documents any subset of the parameters and optionally kw", timeout=200, path_timeout=100, funcs=FUNCS))
     obs.append(Ob(name="class_init_merge", params=[("style", "int"), ("npos", "int"), ("nd", "int"), ("docmask", "int")],
                   pre=["0 <= style <= 2", "0 <= npos <= %d" % mp, "0 <= nd <= npos", "0 <= docmask < 2 ** npos"],
                   body="H.cls_merge(style, npos, nd, docmask, {ACTIVE})", witness=(0, 2, 1, 1), kind="F",
